@@ -332,6 +332,11 @@ def core_specs():
         bounds=[dict(x=0, lo=-8, hi=8)],
         rows=[dict(e=[['vx', 0, 1.0], ['Bz', 0, [[1, -0.5, 2], [-1, 1, 0.5]]]], sense='le', rhs=[2.0, 1.0], set=0)],
         obj=dict(kind='max', e=[['x', 0, [1, 2]]]))
+    # 3a'. several bound objects on the same random components, the looser ones stated last (bounds are intersected)
+    add('static-box-overlap', dv=[dict(shape=[2])], rv=[[2]],
+        sets=[box([-1, -0.5], [1, 2]) + [dict(t='lo', z=0, v=-3.0), dict(t='hi', z=0, v=[4.0, 2.5])]], bounds=bx,
+        rows=[dict(e=[['x', 0, [1, 2]], ['xz', 0, 0, [[1, 1], [0, -1]]]], sense='le', rhs=5)],
+        obj=dict(kind='minmax', set=0, e=[['x', 0, [-1, -1]], ['z', 0, [1, 1]], ['xz', 0, 0, [[0.5, 0], [0, 0.5]]]]))
     # 3b. strictly negative / strictly positive boxes (bound objects with ub < 0 and lb > 0)
     add('static-box-negative', dv=[dict(shape=[2])], rv=[[2]], sets=[box([-3, 0.5], [-1, 2])], bounds=bx,
         rows=[dict(e=[['x', 0, [1, 2]], ['xz', 0, 0, [[1, 1], [0, -1]]]], sense='le', rhs=9),
